@@ -928,6 +928,25 @@ def gen_EV(seed, profile):
             ops.insert(1, resume)
     if profile == "C08" and r.random() < 0.3:
         scn["knobs"]["alloc_cap"] = r.choice([1, 2, 3])
+    rag_ = sub(seed, "against")
+    if profile == "C09" and rag_.random() < 0.12 and not any(o.get("plan") for o in ops):
+        # the same history with the system DECLARED the other way round: every call heads against the system's nominal (t0, tf)
+        # direction; in half of these the step is at least as long as the first leg
+        tf_run = s["tf"]
+        s["tf"] = round(2 * s["t0"] - tf_run, 6)
+        for o in ops:
+            if o["op"] == "integrate" and o.get("t") is None:
+                o["t"] = tf_run
+        if rag_.random() < 0.5:
+            s["dt"] = round(abs(tf_run - s["t0"]) * rag_.uniform(1.0, 2.0), 4) * rag_.choice([1, -1])
+        scn["against_declared_span"] = True
+    rfe_ = sub(seed, "evfault")
+    if profile == "C08" and rfe_.random() < 0.15:
+        # a transient failure of an event function while the roots of a step are being located, then the caller resumes: the step in
+        # which it happened still has to be examined
+        scn["faults"].append({"op": 0, "seam": "event", "at": rfe_.randrange(1, 120), "kind": rfe_.choice(["raise", "raise", "kbdint"])})
+        resume = {"op": "integrate", "events": list(ops[0].get("events", []))}
+        ops = [ops[0], resume] + ops[1:]
     scn["ops"] = ops
     return scn
 
